@@ -169,9 +169,9 @@ pub fn gen_program(r: &mut Rng, g: &Geo, p: &Profile, backend: &str, seed_tag: u
             }
             continue;
         }
-        if r.chance(p.reject_pct) {
+        if r.chance(p.reject_pct) && (!topics[ti].log.is_empty() || r.chance(15)) {
             let t = topics[ti].name.clone();
-            match *r.pick(&[0u64, 0, 0, 1, 1, 2, 3, 3, 4, 4, 5, 5]) {
+            match *r.pick(&[0u64, 1, 2, 3, 3, 3, 3, 4, 4, 4, 5, 5, 5, 5]) {
                 0 => lines.push(format!("append L{} {}", r.below(2), next_desc(10))),
                 1 => lines.push(format!("batch L{} {},{}", r.below(2), next_desc(10), next_desc(300))),
                 2 if g.small => lines.push(format!("append {} {}", t, next_desc(g.max_alloc - g.meta + 1 + r.below(50)))),
